@@ -476,6 +476,7 @@ func (p *parser) primary() (Expr, error) {
 // Contract blocks
 
 type Clause struct {
+	post  bool // for "assume!" site clauses: applies after the call ("assume!post")
 	Tags  []string
 	Label string
 	E     Expr
@@ -519,10 +520,13 @@ type Contract struct {
 	Req, Ens []Clause
 	Mods     []string
 	Pure     bool
+	Returns  *Clause  // "returns e": the (single) result is this expression over the current state (implies pure)
+	PureDeps []string // ghost version variables a pure function depends on (default ASH, ASHP)
 	Dec      *Clause
 	Loops    map[int]*LoopSpec
 	Sites    map[string]*SiteSpec
 	Trusted  bool
+	Skip     []string // "skip C11 reason": not verified under that property (listed as unverified)
 	External bool // declared in /verif/spec (assumed), not in /repo
 	Inline   bool
 	Unroll   bool
@@ -777,7 +781,7 @@ func (sp *Specs) loadSpecFile(path, commentPrefix string, external bool) error {
 				return fail(err)
 			}
 			if w2 == "requires" {
-				cur.Req = append(cur.Req, cl)
+				cur.Req = append(cur.Req, splitConj(cl)...)
 			} else {
 				cur.Ens = append(cur.Ens, cl)
 			}
@@ -799,6 +803,17 @@ func (sp *Specs) loadSpecFile(path, commentPrefix string, external bool) error {
 			cur.Results = splitList(rest2)
 		case "pure":
 			cur.Pure = true
+			if rest2 != "" {
+				cur.PureDeps = strings.Fields(rest2)
+			}
+		case "returns":
+			cl, err := parseClause(tags, rest2)
+			if err != nil {
+				return fail(err)
+			}
+			cur.Returns = &cl
+		case "skip":
+			cur.Skip = append(cur.Skip, rest2)
 		case "trusted":
 			cur.Trusted = true
 		case "inline":
@@ -879,11 +894,12 @@ func (sp *Specs) loadSpecFile(path, commentPrefix string, external bool) error {
 					return fail(err)
 				}
 				ss.Asserts = append(ss.Asserts, cl)
-			case "assume!":
+			case "assume!", "assume!post":
 				cl, err := parseClause(tags, brest)
 				if err != nil {
 					return fail(err)
 				}
+				cl.post = bw == "assume!post"
 				ss.Assumes = append(ss.Assumes, cl)
 			case "ghost":
 				k := strings.Index(brest, " = ")
@@ -922,4 +938,79 @@ func (sp *Specs) schemaFor(key string) *Contract {
 		}
 	}
 	return nil
+}
+
+// splitConj splits a top-level conjunction into separate clauses (better diagnostics, smaller queries).
+func splitConj(cl Clause) []Clause {
+	b, ok := cl.E.(*EBinary)
+	if !ok || b.Op != "&&" {
+		return []Clause{cl}
+	}
+	var out []Clause
+	var walk func(e Expr)
+	n := 0
+	walk = func(e Expr) {
+		if bb, ok := e.(*EBinary); ok && bb.Op == "&&" {
+			walk(bb.L)
+			walk(bb.R)
+			return
+		}
+		n++
+		c := cl
+		c.E = e
+		c.Src = exprString(e)
+		if cl.Label != "" {
+			c.Label = cl.Label + "." + strconvI(n)
+		} else {
+			c.Label = ""
+		}
+		out = append(out, c)
+	}
+	walk(cl.E)
+	return out
+}
+
+func strconvI(n int) string { return strconv.Itoa(n) }
+
+func exprString(e Expr) string {
+	switch n := e.(type) {
+	case *EIdent:
+		return n.Name
+	case *EInt:
+		return strconv.FormatInt(n.V, 10)
+	case *EStr:
+		return strconv.Quote(n.V)
+	case *EBool:
+		if n.V {
+			return "true"
+		}
+		return "false"
+	case *ENil:
+		return "nil"
+	case *EUnary:
+		return n.Op + exprString(n.X)
+	case *EBinary:
+		return "(" + exprString(n.L) + " " + n.Op + " " + exprString(n.R) + ")"
+	case *ECall:
+		var as []string
+		for _, a := range n.Args {
+			as = append(as, exprString(a))
+		}
+		return exprString(n.Fun) + "(" + strings.Join(as, ", ") + ")"
+	case *ESel:
+		return exprString(n.X) + "." + n.Name
+	case *EIndex:
+		return exprString(n.X) + "[" + exprString(n.I) + "]"
+	case *EStore:
+		return exprString(n.X) + "[" + exprString(n.I) + " := " + exprString(n.V) + "]"
+	case *EOld:
+		return "old(" + exprString(n.X) + ")"
+	case *EIte:
+		return "(" + exprString(n.C) + " ? " + exprString(n.A) + " : " + exprString(n.B) + ")"
+	case *EQuant:
+		return "forall/exists ..."
+	case *ERaw:
+		return "smt(...)"
+	}
+	return "?"
 }
